@@ -6,3 +6,5 @@ pub mod jsonnum;
 pub mod utf8;
 pub mod dsv;
 pub mod json_sm;
+pub mod bits;
+pub mod jqval;
